@@ -223,7 +223,13 @@ func (e *Enc) applyCall(name, kind string, fn *ssa.Function, fc *FuncContract, c
 				}
 				cenv.vars["callee."+k] = v
 			}
-			// callee parameters are also available as $0, $1, ...
+			// the function value itself, for calls through function values
+			if !c.IsInvoke() {
+				if _, isBuiltin := c.Value.(*ssa.Builtin); !isBuiltin {
+					cenv.vars["callee"] = TV{T: e.termOf(c.Value), Typ: c.Value.Type()}
+				}
+			}
+			// callee parameters are also available as arg0, arg1, ...
 			for j, a := range args {
 				cenv.vars[fmt.Sprintf("arg%d", j)] = TV{T: e.coerce(a), Typ: argTypes[j]}
 			}
@@ -314,7 +320,7 @@ func (e *Enc) applyCall(name, kind string, fn *ssa.Function, fc *FuncContract, c
 	}
 	// results
 	var results []Val
-	post := &Env{e: e, vars: map[string]TV{}, state: e.cur, old: pre, now0: nowAtCall}
+	post := &Env{e: e, vars: map[string]TV{}, state: e.cur, old: pre, now0: nowAtCall, opaqueLast: map[string]Term{}}
 	for k, v := range env.vars {
 		post.vars[k] = v
 	}
@@ -432,22 +438,42 @@ func (e *Enc) havocForCall(mod KeySet, at ssa.Instruction, args []Val) {
 					e.assert(Eq(Select(nw, a.ref), Select(old, a.ref)))
 				}
 				// in-bounds elements of append-only slices held in fields of an unescaped object
-				if st, isStruct := a.typ.Underlying().(*types.Struct); isStruct && e.p.AppendOnly[k] {
-					if _, local, _ := e.p.structSortName(a.typ); local {
-						for fi := 0; fi < st.NumFields(); fi++ {
-							sl, ok := st.Field(fi).Type().Underlying().(*types.Slice)
-							if !ok || e.p.elemKey(sl.Elem()) != k {
-								continue
-							}
-							h := Select(e.heapGet(pre, e.p.fieldKey(a.typ, fi)), a.ref)
-							q := fmt.Sprintf("(forall ((qi Int)) (! (=> (and (>= qi 0) (< qi (s_len %s))) (= (select (select %s (s_arr %s)) (+ (s_off %s) qi)) (select (select %s (s_arr %s)) (+ (s_off %s) qi)))) :pattern ((select (select %s (s_arr %s)) (+ (s_off %s) qi)))))",
-								h.S, nw.S, h.S, h.S, old.S, h.S, h.S, nw.S, h.S, h.S)
-							e.assert(mk(SBool, q))
-						}
+				if _, isStruct := a.typ.Underlying().(*types.Struct); isStruct && e.p.AppendOnly[k] {
+					e.appendOnlyFrame(pre, k, a.typ, a.ref, old, nw)
+				}
+			}
+		}
+		// ... and of the objects this function was handed (same assumption: nobody appends to a stale
+		// shorter header of the same backing array)
+		if parts[0] == "E" && e.p.AppendOnly[k] {
+			for _, prm := range e.fn.Params {
+				if pt, ok := prm.Type().Underlying().(*types.Pointer); ok {
+					if _, isStruct := pt.Elem().Underlying().(*types.Struct); isStruct {
+						e.appendOnlyFrame(pre, k, pt.Elem(), e.termOf(prm), old, nw)
 					}
 				}
 			}
 		}
+	}
+}
+
+// appendOnlyFrame: the in-bounds elements of the append-only slices held in fields of object ref
+// (a struct of type typ) are the same in element heap versions old and nw.
+func (e *Enc) appendOnlyFrame(pre *State, k string, typ types.Type, ref Term, old, nw Term) {
+	st := typ.Underlying().(*types.Struct)
+	if _, local, _ := e.p.structSortName(typ); !local {
+		return
+	}
+	for fi := 0; fi < st.NumFields(); fi++ {
+		sl, ok := st.Field(fi).Type().Underlying().(*types.Slice)
+		if !ok || e.p.elemKey(sl.Elem()) != k {
+			continue
+		}
+		h := Select(e.heapGet(pre, e.p.fieldKey(typ, fi)), ref)
+		// absolute index, arithmetic-free triggers on either heap version
+		q := fmt.Sprintf("(forall ((qj Int)) (! (=> (and (>= qj (s_off %s)) (< qj (+ (s_off %s) (s_len %s)))) (= (select (select %s (s_arr %s)) qj) (select (select %s (s_arr %s)) qj))) :pattern ((select (select %s (s_arr %s)) qj)) :pattern ((select (select %s (s_arr %s)) qj))))",
+			h.S, h.S, h.S, nw.S, h.S, old.S, h.S, nw.S, h.S, old.S, h.S)
+		e.assert(mk(SBool, q))
 	}
 }
 
